@@ -65,7 +65,10 @@ def BlockR.seekR (cmp : Bytes → Bytes → Ordering) (b : BlockR) (rstart rlimi
   | none => none
   | some s =>
     let index := if s + rstart - 1 < rstart then rstart else s + rstart - 1
-    some (index, b.restartOffset index)
+    -- `if index >= b.restartsLen { return index, b.restartsOffset, nil }` (the repair of D57; the regenerated fact is
+    -- `Gen.blockSeekGuardsIndex`): an empty restart range behind the last restart point has no restart point to read —
+    -- what follows the restart array is its length, not an offset
+    some (index, if index ≥ b.restartsLen then b.restartsOffset else b.restartOffset index)
 
 /-- `block.restartIndex(rstart, rlimit, offset)`; `none` = the Go result is `-1` (`Search` found the very first
 restart offset above `offset` with `rstart = 0`).  The predicate is total: the first `none` is never taken. -/
